@@ -82,8 +82,7 @@ class World:
         self.clock = seams.SimClock(1000.0)
         self.timer = seams.LogicalTimer()
         self.sm = seams.Seams()
-        self.sm.set(codegen, "time", self.clock)
-        self.sm.set(mutil, "timeit", self.timer)
+        seams.own_clocks(self.sm, self.clock, self.timer)
         self.constructions = 0
         self.disk_version = {}
         w = self
@@ -377,7 +376,7 @@ HARNESSES = {
 # render harnesses (H6/H7)
 
 MAIN = """<%inherit file="base.html"/><%namespace file="ns.html" import="*"/>\\
-<%def name="c()" cached="True">[cached]</%def>\\
+<%def name="c()" cached="True" cache_timeout="30" cache_region="short">[cached]</%def>\\
 <%! from mc.c16_cache import deco %><%def name="dd(a)" decorator="deco">dd${a}${x}</%def>\\
 m:${x}:${nsd(x)}:${c()}:${dd(x)}:<%include file="inc.html" args="y=x"/>"""
 BASE = """B(${self.body()})${x}"""
@@ -398,10 +397,11 @@ class RenderWorld:
         import mc.c16_cache as cc
 
         cc.STORE.clear()
+        del cc.CALLS[:]
         cc.SCHED = s
         self.cc = cc
         mlexer._regexp_cache.clear()
-        self.lookup = mlookup.TemplateLookup(cache_impl="c16dict")
+        self.lookup = mlookup.TemplateLookup(cache_impl="c16dict", cache_args={"type": "memory", "region": "default"})
         self.lookup._mutex = s.lock()
         # the templates live in a sub-directory and name each other relatively, so that URI adjustment matters;
         # same-named decoys answer to the unadjusted names
@@ -451,6 +451,11 @@ def h_render(w, nthreads):
         for i in range(nthreads):
             if ex.results[i][1] != solos[i]:
                 v.append(("render:crosstalk", "each render produces exactly its solo output", solos[i], ex.results[i][1]))
+        want = {"type": "memory", "region": "short", "timeout": 30}
+        for key, kw in w.cc.CALLS:
+            if kw != want:
+                v.append(("render:cache-args", "every call reaches the backend with the section's complete cache arguments (first-use initialisation included)", want, (key, kw)))
+                break
         return v
 
     return [mk(str(i)) for i in range(nthreads)], finish
